@@ -103,24 +103,6 @@ func findFirstBetween(value, sub, start, finish any) (any, error) {
 		}
 	}
 
-	if i < 0 {
-		i = 0
-	} else if i > len(s) {
-		return nil, nil
-	} else {
-		n := 0
-		for j := 0; j < i; j++ {
-			_, sz := utf8.DecodeRuneInString(s[n:])
-			if sz == 0 {
-				return nil, nil
-			}
-
-			n += sz
-		}
-
-		i = n
-	}
-
 	j, isNum, ok := toInt(finish)
 	if !ok {
 		if !isNum {
@@ -143,6 +125,24 @@ func findFirstBetween(value, sub, start, finish any) (any, error) {
 		}
 	}
 
+	if i < 0 {
+		i = 0
+	} else if i > len(s) {
+		return nil, nil
+	} else {
+		n := 0
+		for k := 0; k < i; k++ {
+			_, sz := utf8.DecodeRuneInString(s[n:])
+			if sz == 0 {
+				return nil, nil
+			}
+
+			n += sz
+		}
+
+		i = n
+	}
+
 	if j < 0 {
 		return nil, nil
 	} else if j > len(s) {
@@ -152,13 +152,17 @@ func findFirstBetween(value, sub, start, finish any) (any, error) {
 		for k := 0; k < j; k++ {
 			_, sz := utf8.DecodeRuneInString(s[n:])
 			if sz == 0 {
-				return nil, nil
+				break
 			}
 
 			n += sz
 		}
 
 		j = n
+	}
+
+	if i > j {
+		return nil, nil
 	}
 
 	r := strings.Index(s[i:j], p)
@@ -312,24 +316,6 @@ func findLastBetween(value, sub, start, finish any) (any, error) {
 		}
 	}
 
-	if i < 0 {
-		i = 0
-	} else if i > len(s) {
-		return nil, nil
-	} else {
-		n := 0
-		for j := 0; j < i; j++ {
-			_, sz := utf8.DecodeRuneInString(s[n:])
-			if sz == 0 {
-				return nil, nil
-			}
-
-			n += sz
-		}
-
-		i = n
-	}
-
 	j, isNum, ok := toInt(finish)
 	if !ok {
 		if !isNum {
@@ -352,6 +338,24 @@ func findLastBetween(value, sub, start, finish any) (any, error) {
 		}
 	}
 
+	if i < 0 {
+		i = 0
+	} else if i > len(s) {
+		return nil, nil
+	} else {
+		n := 0
+		for k := 0; k < i; k++ {
+			_, sz := utf8.DecodeRuneInString(s[n:])
+			if sz == 0 {
+				return nil, nil
+			}
+
+			n += sz
+		}
+
+		i = n
+	}
+
 	if j < 0 {
 		return nil, nil
 	} else if j > len(s) {
@@ -361,13 +365,17 @@ func findLastBetween(value, sub, start, finish any) (any, error) {
 		for k := 0; k < j; k++ {
 			_, sz := utf8.DecodeRuneInString(s[n:])
 			if sz == 0 {
-				return nil, nil
+				break
 			}
 
 			n += sz
 		}
 
 		j = n
+	}
+
+	if i > j {
+		return nil, nil
 	}
 
 	r := strings.LastIndex(s[i:j], p)
